@@ -114,6 +114,7 @@ struct Config
     static constexpr bool ALL_COPYABLE = (std::is_copy_constructible_v<typename Desc<D>::Type> && ...);
     static constexpr bool ALL_COPY_ASSIGNABLE = (std::is_copy_assignable_v<typename Desc<D>::Type> && ...);
     static constexpr bool HAS_TRACKED = (IsTracked<typename Desc<D>::Type>::value || ...);
+    static constexpr bool HAS_UNIQUE_PTR = (std::is_same_v<typename Desc<D>::Type, std::unique_ptr<int>> || ...);  // compared by address
     static constexpr size_t N_TRACKED_FIELDS = ((IsTracked<typename Desc<D>::Type>::value ? 1 : 0) + ... + 0);
     static constexpr bool ANY_ALIGN = ((Desc<D>::ALIGN != 0) || ...);
     static constexpr size_t MAX_ALIGN = std::max({size_t{1}, Desc<D>::ALIGN...});
